@@ -77,6 +77,9 @@ def check(repo: Repo, rep: Report) -> None:
            "Trampoline.run does not discard the remaining queue when the drain ends (in the finally, under the lock): after an "
            "action raised, steps queued by other sources survive and are run by the next unrelated subscribe on the thread -- a "
            "never-ending source whose early terminator is already exhausted keeps producing for ever")
+    rep.rule("F0-scheduler-forwarded", "trigger-driven early terminators subscribe source and trigger with the subscriber's scheduler", floor=2)
+    for rel_, q_ in (("reactivex/operators/_takeuntil.py", "take_until_.subscribe"), ("reactivex/operators/_skipuntil.py", "skip_until_.subscribe")):
+        TC.rule_scheduler_forwarded(rep, "F0-scheduler-forwarded", repo.fn(rel_, q_))
     # producers
     m = model_of(repo)
     rule_producer_poll(repo, rep, "E8-producer-poll")
